@@ -74,9 +74,14 @@ RawRowsClean ==
     /\ \A k \in 1..Len(S.rawhist) : S.rawhist[k][1] \in Scripts /\ S.rawhist[k][3] # <<>>
     /\ (~S.ahead => \A k \in 1..Len(S.rawhist) : \A j \in 1..Len(S.rawhist[k][3]) : S.rawhist[k][3][j] < S.txc)
     \* undo rows of the blocks inside the reorg window hold one 24-byte entry per spent input of that block
-    \* (rows above the tip or below the window are stale leftovers that nothing reads)
-    /\ \A k \in 1..Len(S.undolen) : (S.undolen[k][1] <= S.h /\ S.undolen[k][1] > S.h - T.limit /\ S.undolen[k][1] >= 0) =>
-          (S.undolen[k][3] = 0 /\ S.undolen[k][2] = NonGenInputs(Chain[S.undolen[k][1] + 1]))
+    \* (rows above the tip or below the window are stale leftovers that nothing reads).  The code keeps undo
+    \* information relative to the DAEMON's height as it knew it when the block was advanced: only once the index sits on
+    \* the daemon's tip (and the daemon's chain never got shorter) is the window of the index the window the rows were
+    \* written for.  While the index is behind, a row at or below its own height may still be the orphaned block's: it is
+    \* below the daemon's window, nothing can read it, and the next start prunes it (PrunedOnOpen).
+    /\ (S.ev \in {"caughtup", "final"} /\ ~S.shrunk /\ S.h + 1 = Len(S.best)) =>
+         \A k \in 1..Len(S.undolen) : (S.undolen[k][1] <= S.h /\ S.undolen[k][1] > S.h - T.limit /\ S.undolen[k][1] >= 0) =>
+            (S.undolen[k][3] = 0 /\ S.undolen[k][2] = NonGenInputs(Chain[S.undolen[k][1] + 1]))
 (* C03 / resume clause of C04, C05: a catch-up that saw the daemon's longer chain ends on it *)
 CaughtUpFresh ==
   (IsView /\ S.ev \in {"caughtup", "final"} /\ S.fresh /\ S.h + 1 = Len(S.best)) => Chain = S.best
